@@ -27,12 +27,17 @@ pub enum Corruption {
     /// file ends at `at`, a boundary between two units (after a complete assignment, after the
     /// line break or the comment that follows it): the error is expected AT the end of input
     TruncateAtBoundary { at: usize },
+    /// one byte of the `*/` that closes a block comment overwritten by a blank: the comment
+    /// never ends (`from` = offset of its `/*`). The first character that cannot continue valid
+    /// notation is then the END OF INPUT, so only the lower bound (not before the comment) and the
+    /// consistency clauses apply.
+    BreakCommentEnd { at: usize, from: usize },
 }
 
 impl Corruption {
     fn at(&self) -> usize {
         match self {
-            Corruption::Replace { at, .. } | Corruption::SectorZero { at } | Corruption::Truncate { at } | Corruption::TruncateAtBoundary { at } => *at,
+            Corruption::Replace { at, .. } | Corruption::SectorZero { at } | Corruption::Truncate { at } | Corruption::TruncateAtBoundary { at } | Corruption::BreakCommentEnd { at, .. } => *at,
         }
     }
 }
@@ -94,6 +99,7 @@ fn apply(c: &Corruption, text: &str) -> Vec<u8> {
     let mut b = text.as_bytes().to_vec();
     match c {
         Corruption::Replace { at, byte } => b[*at] = *byte,
+        Corruption::BreakCommentEnd { at, .. } => b[*at] = b' ',
         Corruption::SectorZero { at } => {
             let e = (*at + 512).min(b.len());
             for x in &mut b[*at..e] {
@@ -108,6 +114,7 @@ fn apply(c: &Corruption, text: &str) -> Vec<u8> {
 fn seam_faults(c: &Corruption) -> Vec<Fault> {
     match c {
         Corruption::Replace { at, byte } => vec![Fault { cls: shim::C_READ, ord: 0, kind: shim::F_GARBLE, a: *at as u64, b: *byte as u64 }],
+        Corruption::BreakCommentEnd { at, .. } => vec![Fault { cls: shim::C_READ, ord: 0, kind: shim::F_GARBLE, a: *at as u64, b: b' ' as u64 }],
         Corruption::SectorZero { at } => vec![Fault { cls: shim::C_READ, ord: 0, kind: shim::F_ZERO, a: *at as u64, b: 512 }],
         Corruption::Truncate { at } | Corruption::TruncateAtBoundary { at } if *at >= 1 => vec![
             Fault { cls: shim::C_READ, ord: 0, kind: shim::F_SHORT, a: *at as u64, b: 0 },
@@ -230,6 +237,29 @@ impl Scenario for C17Corrupt {
                 cases.push(Case { c: Corruption::Truncate { at }, file: f.chance(1, 2), ts: false });
             }
         }
+        // block comments whose terminator is damaged
+        {
+            let b = text.as_bytes();
+            let mut ends: Vec<(usize, usize)> = vec![]; // (offset of '*' in "*/", offset of the matching "/*")
+            let mut i = 0;
+            while i + 1 < b.len() {
+                if b[i] == b'/' && b[i + 1] == b'*' {
+                    if let Some(len) = text[i + 2..].find("*/") {
+                        ends.push((i + 2 + len, i));
+                        i += len + 4;
+                        continue;
+                    }
+                }
+                i += 1;
+            }
+            for _ in 0..2 {
+                if ends.is_empty() {
+                    break;
+                }
+                let (e, from) = *f.pick(&ends);
+                cases.push(Case { c: Corruption::BreakCommentEnd { at: e + f.below(2), from }, file: f.chance(1, 2), ts: false });
+            }
+        }
         // truncation inside module headers: right after an identifier of the header, the EXPORTS
         // or the IMPORTS lists, and at random strict positions of it
         for _ in 0..4 {
@@ -317,7 +347,7 @@ impl Scenario for C17Corrupt {
                 continue;
             };
             out.count("corruptions", 1);
-            out.count(&format!("corruption.{}", match case.c { Corruption::Replace { .. } => "replace", Corruption::SectorZero { .. } => "sector_zero", Corruption::Truncate { .. } => "truncate", Corruption::TruncateAtBoundary { .. } => "truncate_at_boundary" }), 1);
+            out.count(&format!("corruption.{}", match case.c { Corruption::Replace { .. } => "replace", Corruption::SectorZero { .. } => "sector_zero", Corruption::Truncate { .. } => "truncate", Corruption::TruncateAtBoundary { .. } => "truncate_at_boundary", Corruption::BreakCommentEnd { .. } => "break_comment_end" }), 1);
             out.count(if case.file { "delivery.file_corrupted_by_seam" } else { "delivery.literal" }, 1);
             if case.file {
                 // the seam must have delivered what `ctext` models: one read of the whole (or truncated) file
@@ -377,7 +407,13 @@ impl Scenario for C17Corrupt {
             //    A comment is not a token: the lower bound is the first byte of the unit's own
             //    first token (calibrated on the unchanged tree: the lexer skips leading comments
             //    before it records a position).
-            if r.offset > pos {
+            if let Corruption::BreakCommentEnd { from, .. } = &case.c {
+                // the comment never ends: anything from its opening to the end of input is a
+                // defensible position, anything before it is not
+                if r.offset < *from {
+                    out.violate("not-before-malformed-unit", format!("reported offset {} lies before the unterminated comment that starts at {from}; {ctx}", r.offset));
+                }
+            } else if r.offset > pos {
                 out.violate("not-after-first-bad-byte", format!("reported offset {} lies after the first corrupted byte {pos}; {ctx}", r.offset));
             } else if r.offset < unit.start && !matches!(case.c, Corruption::TruncateAtBoundary { .. }) {
                 out.violate("not-before-malformed-unit", format!("reported offset {} lies before the first token ({}) of the malformed {}; {ctx}", r.offset, unit.start, unit.kind));
